@@ -15,7 +15,9 @@ CHECKS = {
          "priority levels with the code's insertion algorithm and checks queue order = (priority desc, registration order) as an invariant "
          "(negative control: >= in the insertion loop is refuted). Every edge of a dumped state graph is replayed on the real SystemManager, "
          "and all registration permutations plus seeded random histories are recorded from the real code; TLC validates every trace against "
-         "Scheduler_Trace.tla (each timestep must satisfy StepOK: exactly the eligible systems, in rank order; rejected add/remove change nothing)."),
+         "Scheduler_Trace.tla (each timestep must satisfy StepOK: exactly the eligible systems, in rank order; rejected add/remove change nothing). "
+         "The repository's own tests run under the env-guarded tracer and every recorded scheduler operation is validated transition-wise "
+         "(Scheduler_Suite.tla). Thorough tier: Apalache discharges the inductive step of the insertion algorithm for arbitrary integer priorities."),
  "C02": ("Scheduler", "6 C02", "TLC checks over a window alphabet (start -2..3, end incl. end<start and forever, freq 1..3), clocks 0..7, late registration "
          "and requests of 1..3 steps that the code's window test equals the declarative one, that a timestep runs exactly the eligible systems and "
          "that the clock moves by one per step only at the end of a step (negative control: t % freq). Window sweeps and random histories through "
@@ -38,7 +40,9 @@ CHECKS = {
          "and every agent's component set after every call."),
  "C08": ("World", "6 C08", "Per-axis kernels (Clamp, Wrap, InRange) are model-checked for containment and exactness over all positions/deltas up to multi-lap wraps; "
          "World.tla places and moves agents in grid/continuous worlds with non-cubic extents (incl. 0) and wrap on/off. Graph walks and random add/move/move_to/remove "
-         "histories on SpaceWorld/DiscreteWorld/LineWorld/GridWorld are judged by TLC: every agent's xyz() after every call must equal the specification's position."),
+         "histories on SpaceWorld/DiscreteWorld/LineWorld/GridWorld are judged by TLC: every agent's xyz() after every call must equal the specification's position. "
+         "TLAPS proves the kernel lemmas for all integers; saturation is also checked for non-dyadic float extents (must land exactly on the edge); the "
+         "spatial operations recorded by the tracer while the repository's tests run are validated transition-wise (World_Suite.tla)."),
  "C12": ("World", "6 C12", "TLC checks that the code's min/max box equals the declarative per-axis leeway box on every reachable placement x query alphabet (negative "
          "controls: box ignoring per-axis leeway; plain box in a wrapping world = finding F5). Random populations and queries on real worlds are judged by TLC "
          "against the seam-aware definition; an answer equal to the plain box in a wrapping world is KNOWN-FINDING F5, any other difference a violation."),
@@ -130,7 +134,10 @@ def main():
                      "kind_free_text": "TLC 1.8.0 explicit-state model checker on /verif/spec/*.tla; batched trace validation (harness/judge.py)"}],
         "checks": checks,
         "not_applicable": na,
-        "notes": "Exit codes: 0 held, 1 violation (VIOLATION line), 2 machinery failure. known_findings.json lists recorded findings and repaired defects.",
+        "notes": "Exit codes: 0 held, 1 violation (VIOLATION line), 2 machinery failure. known_findings.json lists recorded findings and repaired defects. "
+                 "`./check drift` (not registered for any property, never alarms) covers behaviour outside the listed properties: composition of "
+                 "Scheduler and World, deprecated aliases as refinements, further public API. seeded/ holds 120 independently produced breaking "
+                 "changes with their demonstrations and the outcome of the checks on each (tools/seedcheck.py).",
     }
     with open(os.path.join(VERIF, "MANIFEST.json"), "w") as f:
         json.dump(doc, f, indent=1)
